@@ -15,7 +15,10 @@ CLAIM = dict(
           "those of a capacity-bounded std::vector (a sized construction, push_back or resize beyond the capacity is refused and "
           "leaves the object unchanged / empty), size() <= capacity always. nmtools::small_vector<T,DIM> (default configuration: "
           "inline utl::static_vector / heap std::vector) — after any history its contents ARE the std::vector contents, including "
-          "shrink-then-grow across DIM (the spill copies the live cells only) and sized construction on either side of DIM. (Three repairs found here are in the tree: vector "
+          "shrink-then-grow across DIM (the spill copies the live cells only) and sized construction on either side of DIM. "
+          "utl::tuple (tuple1..tuple12 are hand-written per arity) and utl::tuplev2 are corresponded with std::tuple for every arity "
+          "1..12: value / copy / converting constructors, copy and converting assignment, default construction, every get<I>, "
+          "make_tuple, utility::tuple_cat / tuple_append, with distinct values and mixed element types (correspondence only). (Three repairs found here are in the tree: vector "
           "destructor, static_vector(n) capacity test, value-initialisation of the cells exposed by a growing resize / the sized "
           "constructor.) REFUTED (known findings): maybe / either of a non-trivial type assign into raw storage and never run the "
           "destructor (modelled with exact payload event counts; their observable tag and value are proved to be std's; a case "
@@ -52,7 +55,8 @@ ASSUMPTIONS = ["malloc never fails (every constructor gets a block; malloc(0) is
 
 def drivers(tier):
     # -fno-lifetime-dse: the 0xAB fill of the storage a tracked maybe / either is constructed in must survive
-    return {"c19": [("c19.cpp", "ndebug", ("-fno-lifetime-dse",)), ("c19.cpp", "asan", ("-fno-lifetime-dse",))]}
+    return {"c19": [("c19.cpp", "ndebug", ("-fno-lifetime-dse",)), ("c19.cpp", "asan", ("-fno-lifetime-dse",))],
+            "c19t": [("c19_tuple.cpp", "ndebug", ()), ("c19_tuple.cpp", "asan", ())]}
 
 
 SEQ_ALPHA = ["d", "c0", "c2", "c5", "p", "r0", "r2", "r5", "w0", "w3", "k", "a", "b", "s", "f"]
@@ -98,6 +102,18 @@ def gen_cases(rng, tier):
     for kind, alpha in (("may", MAY_ALPHA), ("mayt", MAY_ALPHA), ("eit", EIT_ALPHA), ("eitt", EIT_ALPHA)):
         for n in range(1, 5):
             for syms in itertools.product(alpha, repeat=n): add("exhaustive", hist(kind, syms))
+    # ---- utl::tuple (hand-written tuple1..tuple12) and utl::tuplev2 against std::tuple: EVERY arity, every constructor /
+    # assignment form, mixed element types in two rotations, all-distinct values; tuple_cat / tuple_append / make_tuple
+    def tadd(line): out.append(("tuples", line, "c19t"))
+    for impl in ("utl", "v2"):
+        for n in range(1, 13):
+            for r, r2 in ((0, 1), (0, 3), (2, 1), (2, 4)):
+                for form in ("val", "copy", "asg", "conv", "casg", "def"):
+                    tadd("tup S:%s S:%s I:%d I:%d I:%d I:%d" % (impl, form, n, r, r2, rng.randint(1, 90)))
+            if n <= 11: tadd("tup S:%s S:app I:%d I:0 I:1 I:%d" % (impl, n, rng.randint(1, 90)))
+            for m in range(1, 7):
+                if n <= 8 and n + m <= 12: tadd("tup S:%s S:cat I:%d I:0 I:1 I:%d I:%d" % (impl, n, rng.randint(1, 90), m))
+    for n in range(1, 5): tadd("tup S:utl S:mk I:%d I:0 I:1 I:%d" % (n, rng.randint(1, 90)))
     # seeded longer histories for the tagged unions (trivial and tracked payload): copy-construction / assignment between
     # engaged and empty objects, either alternative, into constructed and raw members
     for kind, alpha in (("may", MAY_ALPHA), ("mayt", MAY_ALPHA), ("eit", EIT_ALPHA), ("eitt", EIT_ALPHA)):
@@ -125,6 +141,7 @@ def gen_cases(rng, tier):
 
 
 def nontrivial(line):
+    if line.startswith("tup "): return True
     t = line.split(" ")[1:]
     for i, x in enumerate(t):
         if x[0] in "kab" and any(y[0] in "prwvlqnc" for y in t[i + 1:]): return True
@@ -134,7 +151,9 @@ def nontrivial(line):
 def distribution(streams):
     kinds = Counter(); lens = Counter()
     for _, line, _ in streams:
-        t = line.split(" "); kinds[t[0]] += 1; lens[str(min(len(t) - 1, 7)) + ("+" if len(t) - 1 >= 7 else "")] += 1
+        t = line.split(" "); kinds[t[0]] += 1
+        if t[0] == "tup": continue
+        lens[str(min(len(t) - 1, 7)) + ("+" if len(t) - 1 >= 7 else "")] += 1
     return {"kinds": dict(kinds), "history_length": dict(lens)}
 
 
